@@ -123,6 +123,8 @@ def next_rtc_abstract(it, fn, args, kwargs):
 
 def world_for(src, tier):
     w = base_world(src)
+    # the token queue inside a LockingDeque is filled by every posting thread and emptied by the consumer
+    w.shared_put_owners = ('LockingDeque.',)
     for host in ('HsmWithQueues',):
         w.contracts['hsm.%s.dispatch' % host] = FnContract('hsm.%s.dispatch' % host, dispatch_abstract)
     w.contracts['hsm.HsmWithQueues.next_rtc'] = FnContract('hsm.HsmWithQueues.next_rtc', next_rtc_abstract)
